@@ -1,3 +1,350 @@
-//! Layer A: structural facts about the cgmath crate (filled in below).
-use rustc_middle::ty::TyCtxt;
-pub fn write_inventory(_tcx: TyCtxt<'_>, _dir: &str) {}
+//! Layer A: structural facts about the cgmath crate: ADTs (repr, fields, attributes), impl table,
+//! unsafe census (unsafe blocks with the operations inside, unsafe fns, unsafe impls) and rustc's own
+//! layouts for a fixed list of monomorphic instantiations.
+use crate::terms::jstr;
+use rustc_hir as hir;
+use rustc_hir::def::DefKind;
+use rustc_hir::intravisit::{self, Visitor};
+use rustc_middle::ty::{self, Ty, TyCtxt, TypingEnv};
+use rustc_span::def_id::LocalDefId;
+use std::io::Write;
+
+fn attrs_json(tcx: TyCtxt<'_>, attrs: &[hir::Attribute]) -> String {
+    let mut v = vec![];
+    for a in attrs {
+        match a {
+            hir::Attribute::Unparsed(item) => {
+                let path: Vec<String> = item.path.segments.iter().map(|s| s.to_string()).collect();
+                let sp = tcx.sess.source_map().span_to_snippet(item.span).unwrap_or_default();
+                v.push(format!("{{\"path\":{},\"text\":{}}}", jstr(&path.join("::")), jstr(&sp)));
+            }
+            hir::Attribute::Parsed(k) => {
+                let d = format!("{:?}", k);
+                let name = d.split(|c: char| !c.is_alphanumeric() && c != '_').next().unwrap_or("").to_string();
+                if name == "DocComment" {
+                    continue;
+                }
+                v.push(format!("{{\"parsed\":{}}}", jstr(&name)));
+            }
+        }
+    }
+    format!("[{}]", v.join(","))
+}
+
+struct UnsafeVisitor<'tcx> {
+    tcx: TyCtxt<'tcx>,
+    typeck: &'tcx ty::TypeckResults<'tcx>,
+    owner: String,
+    depth: usize,
+    sites: Vec<String>,
+    cur_ops: Vec<String>,
+}
+
+impl<'tcx> UnsafeVisitor<'tcx> {
+    fn iname(&self, did: rustc_hir::def_id::DefId) -> String {
+        format!("{}{}", self.tcx.crate_name(did.krate), self.tcx.def_path(did).to_string_no_crate_verbose())
+    }
+}
+
+impl<'tcx> Visitor<'tcx> for UnsafeVisitor<'tcx> {
+    fn visit_block(&mut self, b: &'tcx hir::Block<'tcx>) {
+        let is_unsafe = matches!(b.rules, hir::BlockCheckMode::UnsafeBlock(hir::UnsafeSource::UserProvided));
+        if is_unsafe {
+            self.depth += 1;
+            let saved = std::mem::take(&mut self.cur_ops);
+            intravisit::walk_block(self, b);
+            let ops = std::mem::replace(&mut self.cur_ops, saved);
+            self.depth -= 1;
+            self.sites.push(format!(
+                "{{\"owner\":{},\"span\":{},\"ops\":[{}]}}",
+                jstr(&self.owner),
+                jstr(&format!("{:?}", b.span)),
+                ops.join(",")
+            ));
+        } else {
+            intravisit::walk_block(self, b);
+        }
+    }
+    fn visit_expr(&mut self, e: &'tcx hir::Expr<'tcx>) {
+        if self.depth > 0 {
+            match e.kind {
+                hir::ExprKind::Call(f, args) => {
+                    let mut name = String::from("?");
+                    let mut unsafe_callee = false;
+                    if let hir::ExprKind::Path(qp) = &f.kind {
+                        if let Some(did) = self.typeck.qpath_res(qp, f.hir_id).opt_def_id() {
+                            name = self.iname(did);
+                            if matches!(self.tcx.def_kind(did), DefKind::Fn | DefKind::AssocFn) {
+                                unsafe_callee = !self.tcx.fn_sig(did).instantiate_identity().skip_norm_wip().safety().is_safe();
+                            }
+                        }
+                    }
+                    let tys: Vec<String> = args.iter().map(|a| format!("{:?}", self.typeck.expr_ty(a))).collect();
+                    let rty = format!("{:?}", self.typeck.expr_ty(e));
+                    let idx: Vec<String> = args
+                        .iter()
+                        .map(|a| self.tcx.sess.source_map().span_to_snippet(a.span).unwrap_or_default())
+                        .collect();
+                    self.cur_ops.push(format!(
+                        "{{\"call\":{},\"unsafe_callee\":{},\"args\":[{}],\"ret\":{},\"arg_src\":[{}]}}",
+                        jstr(&name),
+                        unsafe_callee,
+                        tys.iter().map(|t| jstr(t)).collect::<Vec<_>>().join(","),
+                        jstr(&rty),
+                        idx.iter().map(|t| jstr(t)).collect::<Vec<_>>().join(",")
+                    ));
+                }
+                hir::ExprKind::MethodCall(_, recv, args, _) => {
+                    let mdid = self.typeck.type_dependent_def_id(e.hir_id);
+                    let name = mdid.map(|d| self.iname(d)).unwrap_or("?".into());
+                    let unsafe_callee = mdid.map(|d| !self.tcx.fn_sig(d).instantiate_identity().skip_norm_wip().safety().is_safe()).unwrap_or(false);
+                    let mut tys = vec![format!("{:?}", self.typeck.expr_ty(recv))];
+                    tys.extend(args.iter().map(|a| format!("{:?}", self.typeck.expr_ty(a))));
+                    let rty = format!("{:?}", self.typeck.expr_ty(e));
+                    let mut idx = vec![self.tcx.sess.source_map().span_to_snippet(recv.span).unwrap_or_default()];
+                    idx.extend(args.iter().map(|a| self.tcx.sess.source_map().span_to_snippet(a.span).unwrap_or_default()));
+                    self.cur_ops.push(format!(
+                        "{{\"call\":{},\"unsafe_callee\":{},\"args\":[{}],\"ret\":{},\"arg_src\":[{}]}}",
+                        jstr(&name),
+                        unsafe_callee,
+                        tys.iter().map(|t| jstr(t)).collect::<Vec<_>>().join(","),
+                        jstr(&rty),
+                        idx.iter().map(|t| jstr(t)).collect::<Vec<_>>().join(",")
+                    ));
+                }
+                hir::ExprKind::Unary(hir::UnOp::Deref, inner) => {
+                    let t = self.typeck.expr_ty(inner);
+                    if t.is_raw_ptr() {
+                        self.cur_ops.push(format!("{{\"deref_raw\":{},\"to\":{}}}", jstr(&format!("{:?}", t)), jstr(&format!("{:?}", self.typeck.expr_ty(e)))));
+                    }
+                }
+                hir::ExprKind::Cast(inner, _) => {
+                    let (f, t) = (self.typeck.expr_ty(inner), self.typeck.expr_ty(e));
+                    if t.is_raw_ptr() {
+                        self.cur_ops.push(format!("{{\"ptr_cast\":{},\"to\":{}}}", jstr(&format!("{:?}", f)), jstr(&format!("{:?}", t))));
+                    }
+                }
+                _ => {}
+            }
+        }
+        intravisit::walk_expr(self, e);
+    }
+}
+
+fn layout_json<'tcx>(tcx: TyCtxt<'tcx>, ty: Ty<'tcx>) -> String {
+    let tenv = TypingEnv::fully_monomorphized();
+    match tcx.layout_of(tenv.as_query_input(ty)) {
+        Ok(l) => {
+            let n = l.fields.count();
+            let offs: Vec<String> = (0..n).map(|i| l.fields.offset(i).bytes().to_string()).collect();
+            format!("{{\"size\":{},\"align\":{},\"offsets\":[{}]}}", l.size.bytes(), l.align.abi.bytes(), offs.join(","))
+        }
+        Err(_) => "null".to_string(),
+    }
+}
+
+/// leaf offsets (bytes) of every scalar leaf of `ty` in declaration order, via rustc's layouts
+fn leaf_offsets<'tcx>(tcx: TyCtxt<'tcx>, ty: Ty<'tcx>, base: u64, out: &mut Vec<u64>) -> bool {
+    let tenv = TypingEnv::fully_monomorphized();
+    let Ok(l) = tcx.layout_of(tenv.as_query_input(ty)) else { return false };
+    match ty.kind() {
+        ty::Adt(def, args) if def.is_struct() => {
+            for (i, f) in def.non_enum_variant().fields.iter().enumerate() {
+                let fty = tcx.normalize_erasing_regions(tenv, ty::Unnormalized::new_wip(f.ty(tcx, args)));
+                if !leaf_offsets(tcx, fty, base + l.fields.offset(i).bytes(), out) {
+                    return false;
+                }
+            }
+            true
+        }
+        ty::Tuple(tys) => {
+            for (i, fty) in tys.iter().enumerate() {
+                if !leaf_offsets(tcx, fty, base + l.fields.offset(i).bytes(), out) {
+                    return false;
+                }
+            }
+            true
+        }
+        ty::Array(elem, len) => {
+            let Some(n) = len.try_to_target_usize(tcx) else { return false };
+            let Ok(el) = tcx.layout_of(tenv.as_query_input(*elem)) else { return false };
+            for i in 0..n {
+                if !leaf_offsets(tcx, *elem, base + i * el.size.bytes(), out) {
+                    return false;
+                }
+            }
+            true
+        }
+        _ => {
+            out.push(base);
+            true
+        }
+    }
+}
+
+pub fn write_inventory(tcx: TyCtxt<'_>, dir: &str) {
+    let mut adts = vec![];
+    let mut impls = vec![];
+    let mut fns = vec![];
+    let mut layouts = vec![];
+    let scalars: Vec<(&str, Ty<'_>)> = vec![
+        ("u8", tcx.types.u8),
+        ("u16", tcx.types.u16),
+        ("u32", tcx.types.u32),
+        ("u64", tcx.types.u64),
+        ("usize", tcx.types.usize),
+        ("i8", tcx.types.i8),
+        ("i16", tcx.types.i16),
+        ("i32", tcx.types.i32),
+        ("i64", tcx.types.i64),
+        ("isize", tcx.types.isize),
+        ("f32", tcx.types.f32),
+        ("f64", tcx.types.f64),
+        ("bool", tcx.types.bool),
+        ("char", tcx.types.char),
+        ("u128", tcx.types.u128),
+    ];
+    for ldid in tcx.hir_crate_items(()).definitions() {
+        let did = ldid.to_def_id();
+        let kind = tcx.def_kind(did);
+        let path = tcx.def_path_str(did);
+        let span = format!("{:?}", tcx.def_span(did));
+        match kind {
+            DefKind::Struct | DefKind::Enum | DefKind::Union => {
+                let def = tcx.adt_def(did);
+                let hir_id = tcx.local_def_id_to_hir_id(ldid);
+                let attrs = attrs_json(tcx, tcx.hir_attrs(hir_id));
+                let mut fields = vec![];
+                if def.is_struct() {
+                    for f in def.non_enum_variant().fields.iter() {
+                        let fty = tcx.type_of(f.did).instantiate_identity().skip_norm_wip();
+                        let fattrs = f.did.as_local().map(|l| attrs_json(tcx, tcx.hir_attrs(tcx.local_def_id_to_hir_id(l)))).unwrap_or("[]".into());
+                        fields.push(format!(
+                            "{{\"name\":{},\"ty\":{},\"public\":{},\"attrs\":{}}}",
+                            jstr(f.name.as_str()),
+                            jstr(&format!("{:?}", fty)),
+                            tcx.visibility(f.did).is_public(),
+                            fattrs
+                        ));
+                    }
+                }
+                let generics = tcx.generics_of(did);
+                let ntypes = generics.own_params.iter().filter(|p| matches!(p.kind, ty::GenericParamDefKind::Type { .. })).count();
+                adts.push(format!(
+                    "{{\"path\":{},\"kind\":{},\"repr_c\":{},\"repr_transparent\":{},\"repr_packed\":{},\"type_params\":{},\"fields\":[{}],\"attrs\":{},\"span\":{}}}",
+                    jstr(&path),
+                    jstr(&format!("{:?}", kind)),
+                    def.repr().c(),
+                    def.repr().transparent(),
+                    def.repr().packed(),
+                    ntypes,
+                    fields.join(","),
+                    attrs,
+                    jstr(&span)
+                ));
+                // layouts for single-type-parameter structs
+                if def.is_struct() && ntypes == 1 && generics.own_params.len() == 1 {
+                    for (sname, sty) in &scalars {
+                        let args = tcx.mk_args(&[(*sty).into()]);
+                        let ty = Ty::new_adt(tcx, def, args);
+                        let mut offs = vec![];
+                        let ok = leaf_offsets(tcx, ty, 0, &mut offs);
+                        if !ok {
+                            continue;
+                        }
+                        let n = offs.len() as u64;
+                        let arr = Ty::new_array(tcx, *sty, n);
+                        let tup = Ty::new_tup(tcx, &vec![*sty; n as usize]);
+                        let (mut ao, mut to) = (vec![], vec![]);
+                        leaf_offsets(tcx, arr, 0, &mut ao);
+                        leaf_offsets(tcx, tup, 0, &mut to);
+                        let js = |v: &Vec<u64>| v.iter().map(|x| x.to_string()).collect::<Vec<_>>().join(",");
+                        layouts.push(format!(
+                            "{{\"adt\":{},\"scalar\":{},\"struct\":{},\"leaf_offsets\":[{}],\"array\":{},\"array_offsets\":[{}],\"tuple\":{},\"tuple_offsets\":[{}]}}",
+                            jstr(&path),
+                            jstr(sname),
+                            layout_json(tcx, ty),
+                            js(&offs),
+                            layout_json(tcx, arr),
+                            js(&ao),
+                            layout_json(tcx, tup),
+                            js(&to)
+                        ));
+                    }
+                }
+            }
+            DefKind::Impl { of_trait } => {
+                let self_ty = tcx.type_of(did).instantiate_identity().skip_norm_wip();
+                let (tr, targs, safety) = if of_trait {
+                    let tref = tcx.impl_trait_ref(did).instantiate_identity().skip_norm_wip();
+                    let name = format!("{}{}", tcx.crate_name(tref.def_id.krate), tcx.def_path(tref.def_id).to_string_no_crate_verbose());
+                    let header = tcx.impl_trait_header(did);
+                    (name, format!("{:?}", tref.args), format!("{:?}", header.safety))
+                } else {
+                    (String::new(), String::new(), String::from("Safe"))
+                };
+                let items: Vec<String> = tcx.associated_items(did).in_definition_order().map(|a| jstr(a.name().as_str())).collect();
+                let preds = format!("{:?}", tcx.predicates_of(did).instantiate_identity(tcx).predicates.iter().map(|p| format!("{:?}", p.skip_norm_wip())).collect::<Vec<_>>());
+                impls.push(format!(
+                    "{{\"trait\":{},\"self\":{},\"trait_args\":{},\"derived\":{},\"safety\":{},\"items\":[{}],\"bounds\":{},\"span\":{}}}",
+                    jstr(&tr),
+                    jstr(&format!("{:?}", self_ty)),
+                    jstr(&targs),
+                    tcx.is_automatically_derived(did),
+                    jstr(&safety),
+                    items.join(","),
+                    jstr(&preds),
+                    jstr(&span)
+                ));
+            }
+            DefKind::Fn | DefKind::AssocFn => {
+                let sig = tcx.fn_sig(did).instantiate_identity().skip_norm_wip();
+                let parent = tcx.opt_parent(did).map(|p| tcx.def_path_str(p)).unwrap_or_default();
+                let parent_self = tcx.opt_parent(did).filter(|p| matches!(tcx.def_kind(*p), DefKind::Impl { .. })).map(|p| format!("{:?}", tcx.type_of(p).instantiate_identity().skip_norm_wip())).unwrap_or_default();
+                fns.push(format!(
+                    "{{\"path\":{},\"name\":{},\"parent\":{},\"parent_self\":{},\"unsafe\":{},\"public\":{},\"sig\":{},\"span\":{}}}",
+                    jstr(&path),
+                    jstr(tcx.item_name(did).as_str()),
+                    jstr(&parent),
+                    jstr(&parent_self),
+                    !sig.safety().is_safe(),
+                    tcx.visibility(did).is_public(),
+                    jstr(&format!("{:?}", sig.skip_binder())),
+                    jstr(&span)
+                ));
+            }
+            _ => {}
+        }
+    }
+    // unsafe blocks
+    let mut sites = vec![];
+    for owner in tcx.hir_body_owners() {
+        let body = tcx.hir_body_owned_by(owner);
+        let typeck = tcx.typeck(owner);
+        let mut v = UnsafeVisitor { tcx, typeck, owner: tcx.def_path_str(owner.to_def_id()), depth: 0, sites: vec![], cur_ops: vec![] };
+        // an unsafe fn body is an unsafe context as a whole
+        let is_unsafe_fn = matches!(tcx.def_kind(owner.to_def_id()), DefKind::Fn | DefKind::AssocFn)
+            && !tcx.fn_sig(owner.to_def_id()).instantiate_identity().skip_norm_wip().safety().is_safe();
+        if is_unsafe_fn {
+            v.depth = 1;
+        }
+        v.visit_expr(body.value);
+        if is_unsafe_fn {
+            v.sites.push(format!("{{\"owner\":{},\"span\":{},\"unsafe_fn\":true,\"ops\":[{}]}}", jstr(&v.owner), jstr(&format!("{:?}", body.value.span)), v.cur_ops.join(",")));
+        }
+        sites.extend(v.sites);
+    }
+    let _: Option<LocalDefId> = None;
+    let s = format!(
+        "{{\"adts\":[\n{}\n],\n\"impls\":[\n{}\n],\n\"fns\":[\n{}\n],\n\"unsafe_sites\":[\n{}\n],\n\"layouts\":[\n{}\n]}}\n",
+        adts.join(",\n"),
+        impls.join(",\n"),
+        fns.join(",\n"),
+        sites.join(",\n"),
+        layouts.join(",\n")
+    );
+    let path = format!("{}/inventory.json", dir);
+    let tmp = format!("{}.tmp", path);
+    std::fs::File::create(&tmp).and_then(|mut f| f.write_all(s.as_bytes())).expect("write inventory");
+    std::fs::rename(&tmp, &path).expect("rename inventory");
+}
